@@ -4,8 +4,10 @@
    comparison is insensitive to the association / order of the terms, to where a constant sits and to the
    order of the equations; coefficients are compared within k roundings at the magnitude [scale] (the code
    multiplies and divides Python floats before GEKKO sees them).  The (in)equations are compared as multisets,
-   the variable declarations by variable (bounds exactly).  Nothing here is used by a theorem. *)
-From FrameModel Require Import Num.QcTac Geometry.Rect Cases.Cmp Alloc.Alloc Glb.Extract Glb.System.
+   the variable declarations by variable (bounds exactly).  Nothing here is used by a theorem.
+   The case files evaluate [gen_system_fast] (rows of model.a tabulated once) - equal to [gen_system] by
+   SystemFacts.gen_system_fast_same (C10_fast_generator_same). *)
+From FrameModel Require Import Num.QcTac Geometry.Rect Cases.Cmp Alloc.Alloc Glb.Extract Glb.System Glb.SystemFacts.
 Open Scope list_scope.
 Open Scope Qc_scope.
 
